@@ -194,4 +194,41 @@ example :
     ∧ (Batch.empty.runFrom ops).mols = [(0, 10), (0, 10), (2, 30), (3, 40), (4, 50), (4, 50)] := by
   decide +kernel
 
+/-! ## nothing is lost in a merge -/
+
+theorem addTomogram_mols (b : Batch) (id? : Option Int) (tag : Nat) (ghosts : List Nat) :
+    (b.addTomogram id? tag ghosts).mols.map (·.2) = b.mols.map (·.2) ++ ghosts := by
+  simp [Batch.addTomogram, Function.comp_def]
+
+theorem foldl_add_mols (other : Batch) (gs : List (Int × List (Int × Nat))) (b : Batch) :
+    (gs.foldl (fun acc g => acc.addTomogram none ((dictGet other.images g.1).getD 0) (g.2.map (·.2))) b).mols.map (·.2)
+      = b.mols.map (·.2) ++ ((gs.map (·.2)).flatten.map (·.2)) := by
+  induction gs generalizing b with
+  | nil => simp
+  | cons g gs ih =>
+    rw [List.foldl_cons, ih, addTomogram_mols]
+    simp [List.append_assoc]
+
+/-- **`add_loader` neither loses nor duplicates a molecule**: the molecules of the merged batch are those of the
+receiver, in their order, followed by a permutation of the added batch's molecules (grouped by image). -/
+theorem addBatch_mols (b other : Batch) :
+    ∃ l, (b.addBatch other).mols.map (·.2) = b.mols.map (·.2) ++ l ∧ l.Perm (other.mols.map (·.2)) := by
+  refine ⟨((Tab.groupRows (fun m : Int × Nat => m.1) other.mols).map (·.2)).flatten.map (·.2), ?_, ?_⟩
+  · exact foldl_add_mols other _ b
+  · exact ((C12.groupRows_partition (fun m : Int × Nat => m.1) other.mols).2.2).map _
+
+/-- `filter` keeps exactly the molecules the mask selects, in order (a sublist). -/
+theorem filter_mols_sublist (b : Batch) (mask : List Bool) : (b.filter mask).mols.Sublist b.mols := by
+  unfold Batch.filter
+  simp only
+  induction b.mols generalizing mask with
+  | nil => simp
+  | cons m ms ih =>
+    cases mask with
+    | nil => simp
+    | cons c cs =>
+      cases c
+      · simpa using (ih cs).trans (List.sublist_cons_self m ms)
+      · simpa using (ih cs)
+
 end C03
